@@ -45,16 +45,18 @@ type histEv struct {
 }
 
 type histDriver struct {
-	w      *traceWriter
-	dir    string
-	path   string
-	h      *history.SearchHistory
-	qids   map[string]int
-	eids   map[string]int
-	tr     int
-	bad    bool
-	maxReq int
-	dead   bool
+	w       *traceWriter
+	dir     string
+	path    string
+	h       *history.SearchHistory
+	qids    map[string]int
+	eids    map[string]int
+	tr      int
+	bad     bool
+	maxReq  int
+	tsMode  int
+	foreign map[int]bool
+	dead    bool
 }
 
 func newHistDriver(out string) *histDriver {
@@ -62,7 +64,7 @@ func newHistDriver(out string) *histDriver {
 	if err != nil {
 		fatal("tmpdir: %v", err)
 	}
-	return &histDriver{w: newTraceWriter(out), dir: dir, qids: map[string]int{}, eids: map[string]int{}}
+	return &histDriver{w: newTraceWriter(out), dir: dir, qids: map[string]int{}, eids: map[string]int{}, foreign: map[int]bool{}}
 }
 
 func (d *histDriver) qid(q string) int {
@@ -97,9 +99,13 @@ func (d *histDriver) emit(ev *histEv) {
 	ev.Ents = d.pairs(d.h.Entries)
 	ev.Max = d.h.MaxSize
 	// dense ranks of the time stamps
-	ts := make([]int64, len(d.h.Entries))
-	for i, e := range d.h.Entries {
-		ts[i] = e.Timestamp.UnixNano()
+	// (entries of a foreign file carry whatever times its author wrote: only the program's own stamps are judged)
+	ts := make([]int64, 0, len(d.h.Entries))
+	for _, e := range d.h.Entries {
+		if d.foreign[d.eid(e)] {
+			continue
+		}
+		ts = append(ts, e.Timestamp.UnixNano())
 	}
 	sorted := append([]int64{}, ts...)
 	sort.Slice(sorted, func(i, j int) bool { return sorted[i] < sorted[j] })
@@ -133,11 +139,11 @@ func (d *histDriver) opNew(maxReq int) {
 }
 
 type fileEntry struct {
-	Query        string `json:"query"`
-	Timestamp    string `json:"timestamp"`
-	ResultsCount int    `json:"results_count"`
-	Context      string `json:"context,omitempty"`
-	Duration     int64  `json:"duration,omitempty"`
+	Query        string  `json:"query"`
+	Timestamp    *string `json:"timestamp,omitempty"`
+	ResultsCount int     `json:"results_count"`
+	Context      string  `json:"context,omitempty"`
+	Duration     int64   `json:"duration,omitempty"`
 }
 
 // setFile plays the environment: somebody else writes the on-disk file.
@@ -155,10 +161,30 @@ func (d *histDriver) setFile(cls string, fmax int, queries []string, raw []byte)
 		base := time.Date(2020, 1, 2, 3, 4, 5, 0, time.UTC)
 		fes := make([]fileEntry, 0, len(queries))
 		for i, q := range queries {
-			ts := base.Add(time.Duration(i) * time.Minute)
-			fe := fileEntry{Query: q, Timestamp: ts.Format(time.RFC3339Nano), ResultsCount: i % 3, Context: "ctx", Duration: int64(i + 1)}
+			// a foreign file need not carry increasing times: clocks are set back, files are merged or edited by hand
+			var ts time.Time
+			switch d.tsMode % 5 {
+			case 0:
+				ts = base.Add(time.Duration(i) * time.Minute)
+			case 1:
+				ts = base
+			case 2:
+				ts = base.Add(-time.Duration(i) * time.Minute)
+			case 3: // no timestamp at all
+			default:
+				ts = base.Add(time.Duration((i*7)%3) * time.Minute)
+			}
+			fe := fileEntry{Query: q, ResultsCount: i % 3, Context: "ctx", Duration: int64(i + 1)}
+			if !ts.IsZero() {
+				str := ts.Format(time.RFC3339Nano)
+				fe.Timestamp = &str
+			}
 			fes = append(fes, fe)
-			ev.FEnts = append(ev.FEnts, []int{d.qid(q), d.eid(history.SearchEntry{Query: q, Timestamp: ts, ResultsCount: fe.ResultsCount, Context: fe.Context, Duration: fe.Duration})})
+			id := d.eid(history.SearchEntry{Query: q, Timestamp: ts, ResultsCount: fe.ResultsCount, Context: fe.Context, Duration: fe.Duration})
+			ev.FEnts = append(ev.FEnts, []int{d.qid(q), id})
+			if d.tsMode%5 != 0 {
+				d.foreign[id] = true
+			}
 			if !utf8.ValidString(q) {
 				d.bad = true
 			}
@@ -287,6 +313,7 @@ func histTours(args []string) int {
 		for _, p := range t.Init.FEnts {
 			qs = append(qs, histQueryByModelID[p[0]])
 		}
+		d.tsMode = d.tr
 		d.setFile(t.Init.File, t.Init.FMax, qs, garbage)
 		for _, o := range t.Ops {
 			switch o[0].(string) {
@@ -388,6 +415,7 @@ func histRandom(args []string) int {
 					for j := range qs {
 						qs[j] = tpool[r.Intn(nq)]
 					}
+					d.tsMode = r.Intn(5)
 					d.setFile("valid", []int{-3, 0, 1, 2, 5, 100, -1}[r.Intn(7)], qs, nil)
 				}
 			}
